@@ -442,6 +442,8 @@ func c01(p *model.Prog, r *report.Result) {
 	retentionRule(p, r, "C01.R7", []retRoot{{p.Method("pkg/logic", "Group", "OnReadRtmpAvMsg"), 1}}, 40)
 	c01r8(p, r)
 	c01r10(p, r)
+	w5MetaErr(p, r, "C01.R11")
+	w5CacheKind(p, r, "C01.R12")
 	c01r9(p, r)
 }
 
